@@ -8,6 +8,7 @@ A6  shape of the ripple-carry adder (LSB first, x[i] / y[i] of one position, car
 A5  a negative literal factor must negate the operand before summing: -(x + .. + x) panics for products equal to the minimum value
 A4  the constant-multiplication rewrite splits the literal into magnitude and sign: every rewritten result is returned on one
     edge of a test of that sign (a fast path that looks at the magnitude only drops the sign)
+A8  the overflow term of signed multiplication (computed on magnitudes) depends on the sign of the product
 A7  cross-reference: the peephole rewrites through which every operator network is built keep the function (C04 O4 / O5 / O7 / O9 / O10)
 """
 from .. import mir
@@ -459,5 +460,47 @@ def rule_a7(ctx):
     return res
 
 
+def rule_a8(ctx):
+    """Signed multiplication works on magnitudes: whether the magnitude 2^(bits-1) overflows depends on the sign of the result."""
+    res = RuleResult("A8", "the signed-multiplication overflow term depends on the sign of the result")
+    f, body = _body(ctx)
+    succ = body.pruned_succ({INNER: "Op", OP0: "Mul"})
+    region = body.reachable([0], succ=succ)
+    edges = _signed_true_edges(body, region)
+    # the mux that applies the sign to the magnitude: push_mux(sign, negated magnitude, magnitude) fed by push_negation_circuit
+    sign = set()
+    for b in region:
+        t = body.term(b)
+        if t["k"] == "call" and mir.callee(t) == C02.PUSH_MUX and C02._dominated_by_edges(body, edges, b):
+            if any(r[0] == "call" and mir.last_seg(r[2] or "") == "push_negation_circuit" for (r, p) in body.trace_operand(t["args"][2])):
+                for (r, p) in body.trace_operand(t["args"][1]):
+                    if r[0] == "call" and mir.last_seg(r[2] or "") == "push_xor":
+                        sign.add(r[1])
+    if not sign:
+        raise AnchorMissing("A8: cannot find the sign of the product (selector of the final negation mux) in the Mul arm")
+    # terms or-ed into the overflow flag on the signed edge
+    terms = []
+    for b in sorted(region):
+        t = body.term(b)
+        if t["k"] == "call" and mir.last_seg(mir.callee(t) or "") == "push_or" and C02._dominated_by_edges(body, edges, b) and not body.blocks[b]["cleanup"]:
+            for a in t["args"][1:3]:
+                tr = body.trace_operand(a)
+                if any(r[0] == "call" and r[1] == b for (r, p) in tr):
+                    continue  # the accumulator itself
+                terms.append((b, a, t))
+    if not terms:
+        res.bad(Finding("A8", f["id"], "signed multiplication adds no overflow term", "on the signed edge nothing is or-ed into the overflow flag", f["sp"]))
+        return res
+    for (b, a, t) in terms:
+        deep = body.deep_sources(a, 6)
+        if any(r[0] == "call" and r[1] in sign for (r, p) in deep):
+            res.ok({"site": "line %d" % t["sp"][1], "verdict": "the overflow term looks at the sign of the result"})
+        else:
+            res.bad(Finding("A8", f["id"], "signed overflow term ignores the sign of the product",
+                            "the magnitude 2^(bits-1) is representable only when the product is negative; this term is computed from the magnitude alone, so a product of +2^(bits-1) "
+                            "(e.g. -128i8 * -1i8, 2i8 * 64i8) is returned as the minimum value without a panic", t["sp"]))
+    return res
+
+
 def run(ctx):
-    return ctx.run_rules([rule_a1, rule_a2, rule_a3, rule_a4, rule_a5, rule_a6, rule_a7])
+    return ctx.run_rules([rule_a1, rule_a2, rule_a3, rule_a4, rule_a5, rule_a6, rule_a7, rule_a8])
